@@ -65,6 +65,12 @@ check_C13() {
 check_C02() {
   build_proxy
   wire_part wire relay
+  wire_part roundtrip stamp
+}
+
+check_C07() {
+  build_proxy
+  wire_part wire stamp
 }
 
 check_C06() {
